@@ -100,7 +100,7 @@ FRAME_OPS = []
 
 def op(name, args=None):
     def deco(fn):
-        FRAME_OPS.append((name, args or A(), fn))
+        FRAME_OPS.append((name, (A() if args is None else args), fn))
         return fn
     return deco
 
@@ -629,7 +629,7 @@ SERIES_OPS = []
 
 def sop(name, args=None):
     def deco(fn):
-        SERIES_OPS.append((name, args or A(), fn))
+        SERIES_OPS.append((name, (A() if args is None else args), fn))
         return fn
     return deco
 
@@ -835,7 +835,7 @@ INDEX_OPS = []
 
 def iop(name, args=None):
     def deco(fn):
-        INDEX_OPS.append((name, args or A(), fn))
+        INDEX_OPS.append((name, (A() if args is None else args), fn))
         return fn
     return deco
 
